@@ -30,7 +30,7 @@ let rule_name (r : Model.rule) = match r with
 let show_why (o : Model.rule option) = match o with None -> "accept" | Some r -> "reject:" ^ rule_name r
 
 (* the specification materialises every sub-image; a sub-image has at most ceil(w/4)*ceil(h/4) pixels *)
-let spec_limit = 1 lsl 22
+let spec_limit = 1 lsl 20
 
 let vp8l_case args =
   match args with
@@ -47,10 +47,25 @@ let vp8l_case args =
         (show_why (Model.vp8l_spec_why false wn hn body)) (show_why (Model.vp8l_spec_why true wn hn body))
   | _ -> "bad-args"
 
+(* alphfile <file> <payload>: the harness replaces the ALPH body of a VP8X+ALPH+VP8 file written by libwebp's encoder by
+   0x01 ++ payload and sanitizes it; everything else in the file is valid by construction, so the verdict is the model's
+   verdict on the payload with the CANVAS dimensions (VP8X is the first chunk: width-1 at byte 24, height-1 at byte 27) *)
+let alphfile_case args =
+  match args with
+  | [file; payload] ->
+    let byte i = int_of_string ("0x" ^ String.sub file (2 * i) 2) in
+    let le24 i = byte i + 256 * byte (i + 1) + 65536 * byte (i + 2) in
+    if String.length file < 60 || String.sub file 24 8 <> "56503858" then "san=not-vp8x"
+    else
+      let w = le24 24 + 1 and h = le24 27 + 1 in
+      Printf.sprintf "san=%s" (show_res (Model.lossless_read (cn_of_int w) (cn_of_int h) (unhex payload)))
+  | _ -> "bad-args"
+
 let dispatch kind args =
   match kind with
   | "vp8l" -> vp8l_case args
-  | "alphfile" | "sanitize" | "enc" | "anim" | "mux" | "muxanim" -> "unmodelled"
+  | "alphfile" -> alphfile_case args
+  | "sanitize" | "enc" | "anim" | "mux" | "muxanim" -> "unmodelled"
   | _ -> "unknown-kind " ^ kind
 
 let () = main_loop dispatch
